@@ -403,6 +403,31 @@ fn main() {
                 std::process::exit(0);
             }
         }
+        "dbg-liq" => {
+            // wpsim dbg-liq <liquidity> <lower> <upper> <sqrt_price> : program vs SDK amounts for a deposit
+            let l: u128 = args[2].parse().unwrap();
+            let (lo, hi): (i32, i32) = (args[3].parse().unwrap(), args[4].parse().unwrap());
+            let p: u128 = args[5].parse().unwrap();
+            let (pl, pu) = (whirlpool::math::sqrt_price_from_tick_index(lo), whirlpool::math::sqrt_price_from_tick_index(hi));
+            println!("program delta_a(lower,upper) = {:?}", whirlpool::math::get_amount_delta_a(pl, pu, l, true));
+            println!("program delta_b(lower,upper) = {:?}", whirlpool::math::get_amount_delta_b(pl, pu, l, true));
+            println!("sdk try_get_amount_delta_a = {:?}", orca_whirlpools_core::try_get_amount_delta_a(pl, pu, l, true));
+            println!("sdk try_get_amount_delta_b = {:?}", orca_whirlpools_core::try_get_amount_delta_b(pl, pu, l, true));
+            println!("sdk increase_liquidity_quote = {:?}", orca_whirlpools_core::increase_liquidity_quote(l, 0, p, lo, hi, None, None).map(|q| (q.token_est_a, q.token_est_b)));
+            let exact = model::liquidity_amounts(l, whirlpool::math::tick_index_from_sqrt_price(&p), p, lo, hi, true);
+            println!("exact = {} / {}", exact.0, exact.1);
+            std::process::exit(0);
+        }
+        "dbg-next-a" => {
+            // wpsim dbg-next-a <sqrt_price> <liquidity> <amount> <is_input 0|1>
+            let p: u128 = args[2].parse().unwrap();
+            let l: u128 = args[3].parse().unwrap();
+            let a: u64 = args[4].parse().unwrap();
+            let inp = args[5] == "1";
+            println!("program = {:?}", whirlpool::math::get_next_sqrt_price_from_a_round_up(p, l, a, inp));
+            println!("sdk     = {:?}", orca_whirlpools_core::try_get_next_sqrt_price_from_a(p, l, a, inp));
+            std::process::exit(0);
+        }
         "selfcheck" => {
             // prints "<check> <seed> <event-log hash> <events>" lines; tools/determinism.sh runs this in
             // several processes (sequential and on 16 threads) and diffs the outputs
